@@ -103,29 +103,46 @@ def run(ctx):
     ctx.finish_rule()
 
     ctx.rule("C19.R4", "watch resets the state on every path after assembling", floor=1)
+    # functions of the bin crate from which a validation stage is reachable ("assembling" calls), and those that reset on
+    # *every* path to their return ("always resets": a helper wrapping reset_state counts, one that resets only on success does not)
+    stage_reach = {n for n in prog.fns if n.startswith("bin::") and prog.fns[n].bkind == "fn" and (ctx.cg.reachable([n]) & set(STAGES))}
+    always_resets = {RESET}
+    changed = True
+    while changed:
+        changed = False
+        for n, g in prog.fns.items():
+            if n in always_resets or g.bkind != "fn" or g.defkind == "Closure" or not n.startswith("bin::"):
+                continue
+            rb_ = [b for b, t, c in g.calls() if c in always_resets]
+            if rb_ and not (g.reachable(0, avoid=set(rb_)) & set(g.exits())):
+                always_resets.add(n)
+                changed = True
+    def is_asm_call(c):
+        return c is not None and (c in STAGES or c in stage_reach)
     handlers = []
     for n, f in prog.fns.items():
-        if f.defkind == "Closure" and n.startswith("bin::") and any(c == "bin::assemble" or c in STAGES for b, t, c in f.calls()):
+        if f.defkind == "Closure" and n.startswith("bin::") and any(is_asm_call(c) for b, t, c in f.calls()):
             handlers.append(f)
     ctx.need(handlers, "watch handler closure calling the assembler")
     for f in handlers:
         ctx.analysed_fns.add(f.name)
-        asm_b = [b for b, t, c in f.calls() if c == "bin::assemble" or c in STAGES]
-        rst = [b for b, t, c in f.calls() if c == RESET]
+        asm_b = [b for b, t, c in f.calls() if is_asm_call(c)]
+        rst = [b for b, t, c in f.calls() if c in always_resets]
         for ab in asm_b:
             ctx.instance(1)
-            ok = bool(rst) and f.must_pass(ab, f.exits(), rst)
+            # the assembling callee may itself reset on every path
+            ok = callee_of(f.term(ab)) in always_resets or (bool(rst) and f.must_pass(ab, f.exits(), rst))
             ctx.oblig(ok, {"handler": short(f.name), "reset on every path after assemble": ok}, "must-pass")
             if not ok:
                 p = f.path(ab, set(f.exits()), avoid=set(rst))
                 ctx.violation("watch-no-reset", sp_file_line(f.term(ab).get("sp")),
-                              "the watch handler can return after assembling without calling reset_state (path lines %s): the next "
-                              "re-check would trip over the previous run's labels" % f.path_lines(p))
+                              "the watch handler can return after assembling (`%s`) without reset_state having run on that path (path lines %s): the next "
+                              "re-check would trip over the previous run's labels" % (short(callee_of(f.term(ab)) or "?"), f.path_lines(p)))
         # the reclaimed source is not used afterwards
         rec = [b for b, t, c in f.calls() if c and c.endswith("StaticSource::reclaim")]
         for rb in rec:
             after = f.reachable(rb) - {rb}
-            uses = [b for b, t, c in f.calls() if b in after and c and (c.endswith("StaticSource::src") or c == "bin::assemble")]
+            uses = [b for b, t, c in f.calls() if b in after and c and (c.endswith("StaticSource::src") or is_asm_call(c))]
             ctx.oblig(not uses, {"after reclaim": "source not used"}, "no src()/assemble call reachable")
             if uses:
                 ctx.violation("use-after-reclaim", sp_file_line(f.term(uses[0]).get("sp")), "the watch handler uses the source text after reclaiming it")
